@@ -18,25 +18,28 @@ MODEL_ASSUME = [
     "runs inside a testing/synctest bubble (Go 1.26.8): the sessions' real frame workers tick on a fake clock",
 ]
 
-def model(test, q, t, **kw):
-    return {"level": "exploration", "assumptions": MODEL_ASSUME, "parts": [H(test, "H", q, t, hang_is_violation=True, **kw)]}
+def model(test, q, t, wire=None, **kw):
+    parts = [H(test, "H", q, t, hang_is_violation=True, **kw)]
+    if wire:
+        parts.append(H(wire, "W", 250, 2500, qs=1, ts=16, hang_is_violation=True))
+    return {"level": "exploration", "assumptions": MODEL_ASSUME + (["part W: the same scripts over the real stack - http.Server, x/net/websocket codec, websocket.Handle with HandlerWithLogs+HandlerWithMetrics as composed in cmd/main.go, clients over net.Pipe in the bubble"] if wire else []), "parts": parts}
 
 PROPS = {
-    "C01": model("TestC01Model", 2500, 20000),
-    "C02": model("TestC02Model", 2500, 20000),
+    "C01": model("TestC01Model", 2500, 20000, wire="TestC01Wire"),
+    "C02": model("TestC02Model", 2500, 20000, wire="TestC02Wire"),
     "C03": model("TestC03Isolation", 1200, 8000),
-    "C04": model("TestC04Model", 2500, 25000),
-    "C05": model("TestC05Model", 2500, 15000),
-    "C06": model("TestC06Model", 2500, 12000),
-    "C07": model("TestC07Model", 2000, 10000),
-    "C10": model("TestC10Model", 2500, 10000),
-    "C11": model("TestC11Model", 2500, 15000),
-    "C12": model("TestC12Model", 3000, 25000),
-    "C13": model("TestC13Model", 3000, 25000),
-    "C14": model("TestC14Model", 2500, 15000),
-    "C16": model("TestC16Model", 2500, 15000),
+    "C04": model("TestC04Model", 2500, 25000, wire="TestC04Wire"),
+    "C05": model("TestC05Model", 2500, 15000, wire="TestC05Wire"),
+    "C06": model("TestC06Model", 2500, 12000, wire="TestC06Wire"),
+    "C07": model("TestC07Model", 2000, 10000, wire="TestC07Wire"),
+    "C10": model("TestC10Model", 2500, 10000, wire="TestC10Wire"),
+    "C11": model("TestC11Model", 2500, 15000, wire="TestC11Wire"),
+    "C12": model("TestC12Model", 3000, 25000, wire="TestC12Wire"),
+    "C13": model("TestC13Model", 3000, 25000, wire="TestC13Wire"),
+    "C14": model("TestC14Model", 2500, 15000, wire="TestC14Wire"),
+    "C16": model("TestC16Model", 2500, 15000, wire="TestC16Wire"),
     "C17": model("TestC17Flags", 1000, 6400),
-    "C18": model("TestC18Model", 2000, 12000),
+    "C18": model("TestC18Model", 2000, 12000, wire="TestC18Wire"),
 }
 
 _T = "stateful property-based testing (rapid) against a reference model, handler-level driver in a synctest bubble"
